@@ -36,8 +36,8 @@ TStep ==
        [] h = "post_worker_init" -> Try(a \in Ages /\ s.w[a] = "forked", PostInit(s, a), h)
        [] h = "pre_request" -> Try(a \in Ages /\ s.w[a] = "init" /\ s.req[a] < Threads, PreRequest(s, a), h)
        [] h = "post_request" -> Try(a \in Ages /\ s.w[a] \in {"init", "wexit"} /\ s.req[a] > 0, PostRequest(s, a), h)
-       [] h = "worker_int" -> Try(a \in Ages /\ s.w[a] \in {"forked", "init"} /\ s.sig[a] = "none", Signalled(s, a, "int"), h)
-       [] h = "worker_abort" -> Try(a \in Ages /\ s.w[a] \in {"forked", "init"} /\ s.sig[a] = "none", Signalled(s, a, "abort"), h)
+       [] h = "worker_int" -> Try(a \in Ages /\ s.w[a] \in {"forked", "init"}, Signalled(s, a, "int"), h)
+       [] h = "worker_abort" -> Try(a \in Ages /\ s.w[a] \in {"forked", "init"}, Signalled(s, a, "abort"), h)
        [] h = "worker_exit" -> Try(a \in Ages /\ s.w[a] \in {"forked", "init"}, WorkerExit(s, a), h)
        [] h = "child_exit" ->
             \* a worker the driver killed with SIGKILL ran no hook of its own: its death is the step Killed
